@@ -6,8 +6,9 @@ import json
 import pathlib
 
 from sa import algebra as alg
-from sa.linabs import AsList, EqConst, IndexOf, Lin, LinEval, Opaque
-from sa.model import AnalysisError, ClassInfo, NPArr, Unfoldable
+from sa.bitabs import ABits, ACond, F, Interp, explore
+from sa.model import AnalysisError, ClassInfo, ClassRef, NPArr, Unfoldable
+from sa.wiring import Misbehaves, single_path
 
 SPEC = pathlib.Path(__file__).resolve().parent.parent / "spec" / "fec_matrices.json"
 
@@ -71,9 +72,11 @@ def run(ctx):
         "matrix is constant-folded from the source and checked exhaustively with the checker's own GF(2) algebra "
         "(systematic form, rank, weight of all 2^k codewords, H=[P^T|I] as derived by the repository's helper "
         "(constexpr-inlined), G*H^T=0, distinct non-zero H columns, SEC-DED condition for (16,11,4)); then "
-        "generate/check/check_and_correct are abstractly evaluated in a linear-map domain to decide that they "
-        "multiply by exactly those matrices mod 2, compare with the all-zero syndrome, flip exactly the position "
-        "whose H column equals the syndrome, and report failure when no column matches."
+        "the real generate/check/check_and_correct methods are analysed by abstract interpretation over GF(2)-affine "
+        "forms of a symbolic message / received word (no summaries): generate(x)=x*G for all x, the acceptance "
+        "condition of check is a linear system equivalent to H*w=0, check(generate(x)) is True, and for every error "
+        "pattern (none, each single position, for (16,11,4) each pair) the result of check_and_correct is decided "
+        "for all messages at once (syndromes of codeword+constant error are constants)."
     )
     ctx.assumptions = [
         "numpy/bitarray operations behave as modelled (dot/@/T/%/divmod/array_equal/tolist/index/invert)",
@@ -88,9 +91,10 @@ def run(ctx):
     ctx.rule("matrix/columns", "columns of H are non-zero and pairwise distinct (every single error has its own syndrome)")
     ctx.rule("matrix/sec-ded", "for d>=4: no two H columns sum to zero or to another column (double errors never mis-repaired)")
     ctx.rule("matrix/pinned", "G equals the pinned ETSI matrix by value")
-    ctx.rule("use/generate", "generate(bits) returns (G^T * bits) mod 2 and asserts len(bits) == k")
-    ctx.rule("use/check", "check(bits) returns [(H * bits) mod 2 == CORRECT_SYNDROME] and asserts len(bits) == n")
-    ctx.rule("use/correct", "check_and_correct flips exactly position index(syndrome in columns of H), only when check fails, and returns (False, .) when no column matches")
+    ctx.rule("use/generate", "generate(x) = x*G (mod 2) for ALL 2^k messages (abstract interpretation of the real method), and inputs of k-1 / k+1 bits are rejected")
+    ctx.rule("use/check", "check(w) accepts exactly the codewords: its acceptance condition is a linear system with the same solution space as H*w = 0 (rank n-k); n-1 / n+1 bit words are rejected")
+    ctx.rule("use/generate-passes-check", "check(generate(x)) is True for all x")
+    ctx.rule("use/correct", "check_and_correct: an error-free codeword is returned unaltered with status True; every single inverted bit is repaired to the original for all messages; for d>=4 every double error returns status False")
     spec = json.loads(SPEC.read_text()) if SPEC.exists() else {}
     classes = code_classes(repo)
     for ci in classes:
@@ -150,154 +154,215 @@ def run(ctx):
             raise AnalysisError(f"{q}: no pinned generator matrix in {SPEC.name} (new code class?)")
         ctx.sample({"class": q, "n": n, "k": k, "d_advertised": d, "d_computed": dist, "rank": rk, "codewords_enumerated": 2 ** k})
 
-        # ---------------- use of the matrices
-        GT = [list(c) for c in zip(*Gd)]
-        gen = repo.find_method(ci, "generate")
-        chk = repo.find_method(ci, "check")
-        if gen is None or chk is None:
-            raise AnalysisError(f"{q}: generate/check not found")
-        ctx.saw_func(gen)
-        ctx.saw_func(chk)
-        # generate
-        p = sym_param(gen)
-        le = LinEval(repo, gen, ci, p)
-        rets = [s for s in ast.walk(gen.node) if isinstance(s, ast.Return)]
-        if len(rets) != 1:
-            raise AnalysisError(f"{gen.qualname}: expected one return")
-        v = run_straight(le, gen, rets[0])
-        if isinstance(v, Opaque):
-            raise AnalysisError(f"{gen.qualname}: spelling not modelled: {v.why}")
-        okg = isinstance(v, Lin) and v.mod == 2 and v.reduced() == GT
-        la = [le.const(c) for c in len_asserts(gen, p)]
-        ctx.ob("use/generate", q, okg and la == [k],
-               f"generate returns {v!r}; must be (G^T x) mod 2 with G {k}x{n}; length asserts {la} (want [{k}])", gen.loc)
-        # check
-        p = sym_param(chk)
-        le = LinEval(repo, chk, ci, p)
-        rets = [s for s in ast.walk(chk.node) if isinstance(s, ast.Return)]
-        if len(rets) != 1:
-            raise AnalysisError(f"{chk.qualname}: expected one return")
-        v = run_straight(le, chk, rets[0])
-        if isinstance(v, Opaque):
-            raise AnalysisError(f"{chk.qualname}: spelling not modelled: {v.why}")
-        okc = isinstance(v, EqConst) and v.lin.mod == 2 and v.lin.reduced() == myH and list(v.const) == [0] * (n - kk)
-        la = [le.const(c) for c in len_asserts(chk, p)]
-        ctx.ob("use/check", q, okc and la == [n],
-               f"check returns {type(v).__name__}; must be ((H x) mod 2 == 0-vector) with my own H {n - kk}x{n}; length asserts {la} (want [{n}])", chk.loc)
-        # correction
-        cac = repo.find_method(ci, "check_and_correct")
-        if cac is not None:
-            ctx.saw_func(cac)
-            ok, why = analyse_correct(repo, ci, cac, myH)
-            ctx.ob("use/correct", q, ok, why, cac.loc)
+        # ---------------- use of the matrices: semantic, by abstract interpretation of the real methods
+        with ctx.guard(f"{q}: use of the matrices"):
+            use_rules(ctx, ci, Gd, myH, n, k, d, is_hamming)
     ctx.require("matrix/min-distance", 7)
     ctx.require("use/generate", 7)
     ctx.require("use/check", 7)
     ctx.require("use/correct", 5)
+    ctx.require("use/generate-passes-check", 7)
     ctx.require("matrix/sec-ded", 1)
 
 
-def run_straight(le: LinEval, fi, ret: ast.Return):
-    """evaluate straight-line assignments preceding the return, then the return expression"""
-    for st in fi.node.body:
-        if st is ret:
-            break
-        if isinstance(st, ast.Assign) and len(st.targets) == 1 and isinstance(st.targets[0], ast.Name):
-            le.env[st.targets[0].id] = le.ev(st.value)
-        elif isinstance(st, ast.AnnAssign) and isinstance(st.target, ast.Name) and st.value is not None:
-            le.env[st.target.id] = le.ev(st.value)
-    return le.ev(ret.value)
+def _interp(repo):
+    """interpreter WITHOUT the block-code summaries: the real generate/check/check_and_correct are analysed"""
+    I = Interp(repo)
+    for key in list(I.summaries):
+        if key.startswith("etsi.fec."):
+            del I.summaries[key]
+    return I
 
 
-def analyse_correct(repo, ci, fi, myH):
-    """Structure of check_and_correct, see rule use/correct."""
-    p = sym_param(fi)
-    le = LinEval(repo, fi, ci, p)
-    cols = [list(c) for c in zip(*myH)]
-    member_vars = set()
-    state = {"inverts": 0, "bad": []}
+def _call(I, fi, ci, args, kw=None):
+    a = list(args)
+    if fi.kind == "classmethod":
+        a = [ClassRef(ci)] + a
+    return I.call(fi, a, kw or {}, ci)
 
-    def is_check_call(e):
-        if isinstance(e, ast.Call) and isinstance(e.func, ast.Attribute) and e.func.attr == "check" \
-                and len(e.args) == 1 and isinstance(e.args[0], ast.Name) and e.args[0].id == p:
-            base = ast.unparse(e.func.value)
-            return base in ("cls", "self", ci.name) or base in [c.name for c in repo.mro(ci)]
-        return False
 
-    def guard_is_not_member(test):
-        if isinstance(test, ast.UnaryOp) and isinstance(test.op, ast.Not):
-            t = test.operand
-            return (isinstance(t, ast.Name) and t.id in member_vars) or is_check_call(t)
-        if isinstance(test, ast.Compare) and len(test.ops) == 1 and isinstance(test.ops[0], (ast.Eq, ast.Is)) \
-                and isinstance(test.comparators[0], ast.Constant) and test.comparators[0].value is False:
-            t = test.left
-            return (isinstance(t, ast.Name) and t.id in member_vars) or is_check_call(t)
-        return False
+def codeword_forms(I, Gd, name="x"):
+    k, n = len(Gd), len(Gd[0])
+    x = [I.atom_form((name, i)) for i in range(k)]
+    out = []
+    for j in range(n):
+        acc = F(0, 0)
+        for i in range(k):
+            if Gd[i][j]:
+                acc = acc ^ x[i]
+        out.append(acc)
+    return out
 
-    def walk(stmts, guarded, in_try):
-        for st in stmts:
-            if isinstance(st, (ast.Assign, ast.AnnAssign)):
-                tgt = st.targets[0] if isinstance(st, ast.Assign) else st.target
-                val = st.value
-                if isinstance(tgt, ast.Name):
-                    if is_check_call(val):
-                        member_vars.add(tgt.id)
-                    else:
-                        member_vars.discard(tgt.id) if not (isinstance(val, ast.Constant) and val.value is True) else None
-                        le.env[tgt.id] = le.ev(val)
-                elif isinstance(tgt, ast.Subscript) and ast.unparse(tgt.value) == p:
-                    state["bad"].append(f"line {st.lineno}: direct store into {p}[...]")
-            elif isinstance(st, ast.If):
-                g = guard_is_not_member(st.test)
-                walk(st.body, guarded or g, in_try)
-                walk(st.orelse, guarded, in_try)
-            elif isinstance(st, ast.Try):
-                handlers = st.handlers
-                walk(st.body, guarded, (st, handlers))
-                for h in handlers:
-                    walk(h.body, guarded, in_try)
-                walk(st.finalbody, guarded, in_try)
-            elif isinstance(st, ast.Expr) and isinstance(st.value, ast.Call):
-                c = st.value
-                if isinstance(c.func, ast.Attribute) and isinstance(c.func.value, ast.Name) and c.func.value.id == p:
-                    if c.func.attr == "invert":
-                        state["inverts"] += 1
-                        if len(c.args) != 1:
-                            state["bad"].append(f"line {st.lineno}: invert() without a position flips every bit")
-                            continue
-                        v = le.ev(c.args[0])
-                        if isinstance(v, Opaque):
-                            raise AnalysisError(f"{fi.qualname}: flipped-position expression not modelled: {v.why}")
-                        if not isinstance(v, IndexOf):
-                            state["bad"].append(f"line {st.lineno}: flipped position is not <H columns>.index(syndrome): {v!r}")
-                            continue
-                        if [list(r) for r in v.haystack] != cols:
-                            state["bad"].append(f"line {st.lineno}: index() searches a list that is not the column list of H")
-                        if not (v.needle.mod == 2 and v.needle.reduced() == myH):
-                            state["bad"].append(f"line {st.lineno}: searched value is not (H x) mod 2")
-                        if not guarded:
-                            state["bad"].append(f"line {st.lineno}: flip not guarded by a failed check({p})")
-                        if not in_try:
-                            state["bad"].append(f"line {st.lineno}: index() lookup not inside try/except")
-                        else:
-                            ok_h = False
-                            for h in in_try[1]:
-                                t = ast.unparse(h.type) if h.type is not None else "BaseException"
-                                if t in ("ValueError", "Exception", "BaseException"):
-                                    rets = [s for s in h.body if isinstance(s, ast.Return)]
-                                    if rets and isinstance(rets[-1].value, ast.Tuple) and isinstance(rets[-1].value.elts[0], ast.Constant) \
-                                            and rets[-1].value.elts[0].value is False:
-                                        ok_h = True
-                            if not ok_h:
-                                state["bad"].append(f"line {st.lineno}: failed lookup is not turned into return (False, ...)")
-                    elif c.func.attr in ("setall", "clear", "reverse", "bytereverse", "fill", "extend", "append", "pop", "insert", "remove", "sort"):
-                        state["bad"].append(f"line {st.lineno}: {p}.{c.func.attr}() alters the word")
-            elif isinstance(st, (ast.For, ast.While, ast.With)):
-                walk(st.body, guarded, in_try)
 
-    walk(fi.node.body, False, None)
-    if state["inverts"] == 0:
-        raise AnalysisError(f"{fi.qualname}: correction idiom not recognised (no {p}.invert(<index>) found)")
-    if state["bad"]:
-        return False, "; ".join(state["bad"])
-    return True, f"{state['inverts']} flip site(s): position = columns(H).index((H x) mod 2), guarded by failed check, lookup failure -> (False, .)"
+def lin_rank(forms):
+    """rank of affine forms as vectors (atoms + constant column)"""
+    return alg.gf2_rank([(f.m << 1) | f.c for f in forms])
+
+
+def use_rules(ctx, ci, Gd, myH, n, k, d, is_hamming):
+    repo = ctx.repo
+    q = ci.qualname
+    gen = repo.find_method(ci, "generate")
+    chk = repo.find_method(ci, "check")
+    if gen is None or chk is None:
+        raise AnalysisError(f"{q}: generate/check not found")
+    ctx.saw_func(gen)
+    ctx.saw_func(chk)
+    # ---- generate: for all 2^k messages the output is x*G; wrong lengths are rejected
+    I = _interp(repo)
+
+    def run_gen(st):
+        I.st = st
+        return _call(I, gen, ci, [I.wire("x", k)])
+
+    try:
+        st, out = single_path(I, run_gen, f"{gen.qualname}")
+        bits = I.simp_bits(Frame_bits(out))
+        want = codeword_forms(I, Gd)
+        okg = bits == want
+        detail = f"generate(x) returns {len(bits)} forms; differs from x*G at positions {[i for i, (a, b) in enumerate(zip(bits, want)) if a != b][:8]}" if not okg else "generate(x) = x*G (mod 2) for all x"
+    except Misbehaves as e:
+        okg, detail = False, str(e)
+    lens_ok = True
+    for wrong in (k - 1, k + 1):
+        I2 = _interp(repo)
+
+        def run_w(st, wrong=wrong):
+            I2.st = st
+            return _call(I2, gen, ci, [I2.wire("x", wrong)])
+
+        res = explore(run_w)
+        if not all(kind == "raise" for _, (kind, _) in res):
+            lens_ok = False
+    ctx.ob("use/generate", q, okg and lens_ok, detail + ("" if lens_ok else f"; a {k - 1}- or {k + 1}-bit input is not rejected"), gen.loc)
+
+    # ---- check: accepts exactly the codewords
+    I3 = _interp(repo)
+
+    def run_chk(st):
+        I3.st = st
+        return _call(I3, chk, ci, [I3.wire("w", n)])
+
+    res = explore(run_chk)
+    accept = []
+    for st, (kind, v) in res:
+        if kind == "abort":
+            raise AnalysisError(f"{chk.qualname}: {v}")
+        if kind == "raise":
+            continue
+        I3.st = st
+        cons = []
+        for key, const, eq in st.eqs:
+            if not eq:
+                continue
+            w = len(key)
+            for i, f in enumerate(key):
+                cons.append(f ^ ((const >> (w - 1 - i)) & 1))
+        if v is True:
+            accept.append(cons)
+        elif isinstance(v, ACond) and v.kind == "eqseq":
+            a, b = v.parts
+            accept.append(cons + [x ^ y for x, y in zip(a.items, b.items)])
+        elif v is False or (isinstance(v, ACond) and v.kind == "not"):
+            if isinstance(v, ACond):
+                raise AnalysisError(f"{chk.qualname}: negated structural condition not modelled")
+            continue
+        else:
+            raise AnalysisError(f"{chk.qualname}: result {v!r} not modelled")
+    wforms = [I3.atom_form(("w", i)) for i in range(n)]
+    syn = []
+    for row in myH:
+        acc = F(0, 0)
+        for i, h in enumerate(row):
+            if h:
+                acc = acc ^ wforms[i]
+        syn.append(acc)
+    if len(accept) != 1:
+        okc, detail = (False, "check accepts nothing") if not accept else (None, "")
+        if okc is None:
+            raise AnalysisError(f"{chk.qualname}: {len(accept)} accepting paths (only a single conjunction of linear conditions is modelled)")
+    else:
+        cons = [c for c in accept[0] if isinstance(c, F)]
+        if len(cons) != len(accept[0]):
+            raise AnalysisError(f"{chk.qualname}: opaque acceptance condition")
+        r_c, r_s, r_both = lin_rank(cons), lin_rank(syn), lin_rank(cons + syn)
+        okc = r_c == r_s == r_both == n - k
+        detail = (f"acceptance condition has rank {r_c}, the syndrome equations rank {r_s}, together {r_both} (need all = n-k = {n - k}): "
+                  + ("checker accepts exactly the 2^k codewords" if okc else "the checker's accepted set is NOT the code" + (f" (accepts 2^{n - r_c} words)" if r_c < n - k else "")))
+    lens_ok = True
+    for wrong in (n - 1, n + 1):
+        I4 = _interp(repo)
+
+        def run_w2(st, wrong=wrong):
+            I4.st = st
+            return _call(I4, chk, ci, [I4.wire("w", wrong)])
+
+        if not all(kind == "raise" for _, (kind, _) in explore(run_w2)):
+            lens_ok = False
+    ctx.ob("use/check", q, bool(okc) and lens_ok, detail + ("" if lens_ok else f"; a {n - 1}- or {n + 1}-bit word is not rejected"), chk.loc)
+
+    # ---- every generated word passes the checker (composition, all messages)
+    I5 = _interp(repo)
+
+    def run_gc(st):
+        I5.st = st
+        cw = _call(I5, gen, ci, [I5.wire("x", k)])
+        return _call(I5, chk, ci, [ABits(Frame_bits(cw), "ba")])
+
+    try:
+        st, v = single_path(I5, run_gc, f"{q}: check(generate(x))")
+        ctx.ob("use/generate-passes-check", q, v is True, f"check(generate(x)) evaluates to {v!r} (must be True for all x)", chk.loc)
+    except Misbehaves as e:
+        ctx.ob("use/generate-passes-check", q, False, str(e), chk.loc)
+
+    # ---- correction
+    cac = repo.find_method(ci, "check_and_correct")
+    if cac is None:
+        return
+    ctx.saw_func(cac)
+    bad = []
+    n_runs = 0
+    patterns = [()] + [(i,) for i in range(n)]
+    if d >= 4:
+        patterns += [(i, j) for i in range(n) for j in range(i + 1, n)]
+    for pat in patterns:
+        I6 = _interp(repo)
+
+        def run_c(st, pat=pat):
+            I6.st = st
+            cw = codeword_forms(I6, Gd)
+            rx = list(cw)
+            for p in pat:
+                rx[p] = rx[p] ^ 1
+            arg = ABits(rx, "ba")
+            r = _call(I6, cac, ci, [arg])
+            return cw, r, arg
+
+        res = explore(run_c)
+        n_runs += 1
+        if len(res) != 1 or res[0][1][0] != "ok":
+            bad.append((pat, "paths: " + "; ".join(f"{kd}:{vv}" for _, (kd, vv) in res)[:120]))
+            continue
+        cw, r, arg = res[0][1][1]
+        if not (isinstance(r, tuple) and len(r) == 2):
+            bad.append((pat, f"returns {r!r}"))
+            continue
+        status, word = r
+        wbits = I6.simp_bits(Frame_bits(word)) if isinstance(word, (ABits,)) else None
+        if len(pat) <= 1:
+            if status is not True or wbits != cw:
+                bad.append((pat, f"status={status!r}, word {'restored' if wbits == cw else 'NOT the original codeword'}"))
+        else:
+            if status is not False:
+                bad.append((pat, f"double error reported as status={status!r}" + (" and mis-repaired" if wbits != cw else "")))
+    ctx.ob("use/correct", q, not bad,
+           f"{n_runs} error patterns (none, all {n} single" + (f", all {n * (n - 1) // 2} double" if d >= 4 else "") + f") analysed for all 2^{k} messages at once; failing: {bad[:4]}", cac.loc)
+
+
+def Frame_bits(v):
+    from sa.bitabs import AView
+    if isinstance(v, ABits):
+        return list(v.items)
+    if isinstance(v, AView):
+        return v.get()
+    raise AnalysisError(f"expected a bit vector, got {v!r}")
